@@ -134,6 +134,7 @@ type Machine struct {
 	inInit    int
 	syncMaps  map[*value]*mapV
 	pools     map[*value][]value
+	files     map[*value]*fileState
 	overrides map[string]value
 	racyScope string
 	randInts  []*Term
@@ -697,6 +698,7 @@ func (m *Machine) resetPath() {
 	m.inInit = 0
 	m.syncMaps = map[*value]*mapV{}
 	m.pools = map[*value][]value{}
+	m.files = map[*value]*fileState{}
 	m.overrides = map[string]value{}
 	m.racyScope = ""
 	m.randInts = nil
@@ -870,4 +872,16 @@ func (m *Machine) maximizeInputs(extra []*Term) []*Term {
 		return extra
 	}
 	return lits
+}
+
+// pipeState / fileState: the model of os.Pipe (see extern.go).
+type pipeState struct {
+	buf              []value
+	rclosed, wclosed bool
+}
+
+type fileState struct {
+	p      *pipeState
+	w      bool
+	closed bool
 }
